@@ -71,6 +71,13 @@ def run(ctx):
     if not binp:
         ctx.broken_ties.append("harness e1/num_test.go does not compile against the current tree")
         corr_broken.append("harness build")
+    elif ctx.replay_in:
+        num_ops = ("b10", "ms2dur", "req", "reqtcp", "dpub", "hdefer", "setmsgtimeout")
+        e1util.replay(ctx, binp, [
+            ("TestVerifNumCorr", "num", lambda o: o.split()[0] in num_ops and o.split()[0] != "ms2dur"),
+            ("TestVerifPQCorr", "pq", lambda o: o.split()[0] in ("pq1", "pq2")),
+        ], lambda o, i: num_oracle(o, i) if o.split()[0] in num_ops else pq_oracle(o, i))
+        return
     else:
         run_all(ctx, binp, corr_broken, scale=1)
         run_wall(ctx, binp, corr_broken)
@@ -100,6 +107,7 @@ def run_all(ctx, binp, corr_broken, scale=1, search=False):
     ]
     for test, stream, n, env, tag in plans:
         ok, ops, impl, out = e1util.run_corr(ctx, binp, test, stream, n, env, timeout=1500)
+        ctx.log("%s: %d cases" % (test, len(ops)))
         if "no tests to run" in out:
             continue  # that harness file is not part of the binary (fallback build)
         if not ok:
